@@ -38,6 +38,8 @@ pub struct Scenario {
     pub fault_cfg: BTreeMap<String, u32>, // fault kind -> rate (per mille) as configured
     pub host_eager: bool,
     pub host_feed: String, // "one" | "all" | "subset" | "withmsg"
+    #[serde(default)]
+    pub byz: Option<usize>, // the Byzantine participant, if any
 }
 
 pub const EXTRA_PEERS: usize = 3; // observer, observer2, spare (used by shadow runs only)
@@ -52,7 +54,14 @@ pub enum Ev {
     /// The store loses its last k writes (lost durable writes); the peer continues.
     Rollback { peer: usize, k: usize },
     /// A new message derived from `src` by forge ops (Byzantine tamper by `by`, corruption, restamp, ...), addressed to `to`.
-    Forge { src: MsgId, to: usize, by: Option<usize>, ops: Vec<ForgeOp> },
+    Forge {
+        src: MsgId,
+        to: usize,
+        by: Option<usize>,
+        ops: Vec<ForgeOp>,
+        #[serde(default)]
+        payload: Option<String>,
+    },
     /// Informational (driver-level faults with no world transition): drop, partition, stall, ...
     Note { kind: String, detail: String },
 }
@@ -68,6 +77,8 @@ pub struct Msg {
     pub forged: bool,
     pub must_reject: Option<String>, // set by forge ops that alter something attributed to another peer
     pub taint: BTreeSet<String>,
+    pub forged_from: Option<Rc<Vec<u8>>>, // the honest bytes this message was forged from
+    pub forge_kinds: Vec<String>,
 }
 
 pub struct PeerSt {
@@ -100,6 +111,8 @@ pub struct RunRec {
     pub must_reject: Option<String>,
     pub fed: Vec<u32>,
     pub bogus: Vec<String>,
+    pub forged_from: Option<Rc<Vec<u8>>>,
+    pub forge_kinds: Vec<String>,
 }
 
 #[derive(Default, Clone, Debug, Serialize, Deserialize)]
@@ -289,12 +302,24 @@ impl World {
                 }
                 None
             }
-            Ev::Forge { src, to, by, ops } => {
+            Ev::Forge { src, to, by, ops, payload } => {
                 let Some(m) = self.msgs.get(src).cloned() else {
                     self.skipped += 1;
                     return None;
                 };
-                let forged = crate::tamper::forge(self, &m, *by, ops);
+                let mut forged = crate::tamper::forge(self, &m, *by, ops);
+                // byte-level corruption acts on the encoded bytes, whose internal map order is not part of the
+                // history: the resulting payload is recorded verbatim so that a replay delivers exactly these bytes
+                let byte_level = ops.iter().any(|o| matches!(o.kind(), "flipbit" | "truncate" | "extend" | "zerowindow" | "splice"));
+                if let (Some(p), Some(nm)) = (payload, forged.as_mut()) {
+                    if let Some(bytes) = crate::tamper::unhex(p) {
+                        nm.data = Rc::new(bytes);
+                    }
+                } else if let (true, Some(nm)) = (byte_level, forged.as_ref()) {
+                    if let Some((_, Ev::Forge { payload, .. })) = self.events.last_mut() {
+                        *payload = Some(crate::tamper::hex(&nm.data));
+                    }
+                }
                 match forged {
                     Some(mut nm) => {
                         nm.to = *to;
@@ -332,6 +357,10 @@ impl World {
                         }
                     },
                     None => (Rc::new(vec![]), None, self.script.clone(), self.sc.particle_id.clone(), false, None, BTreeSet::new()),
+                };
+                let (forged_from, forge_kinds) = match msg.and_then(|id| self.msgs.get(&id)) {
+                    Some(m) => (m.forged_from.clone(), m.forge_kinds.clone()),
+                    None => (None, vec![]),
                 };
                 let mut results: BTreeMap<String, SvcRes> = BTreeMap::new();
                 let mut fed = vec![];
@@ -374,6 +403,9 @@ impl World {
                     raw_results: None,
                 });
                 self.stats.runs += 1;
+                if std::env::var("VERIF_TRACE").map(|v| v == "2").unwrap_or(false) {
+                    eprintln!("    -> code {} {} next {:?} reqs {:?}\n    data {}", out.code, out.msg, out.next, out.reqs.keys().collect::<Vec<_>>(), interp::data_json(&interp::dec(&out.data)));
+                }
                 *self.stats.codes.entry(out.code.to_string()).or_default() += 1;
                 for (n, _) in &out.probes {
                     *self.stats.probes.entry(n.clone()).or_default() += 1;
@@ -426,6 +458,8 @@ impl World {
                                         forged: false,
                                         must_reject: None,
                                         taint: taint.clone(),
+                                        forged_from: None,
+                                        forge_kinds: vec![],
                                     },
                                 );
                             }
@@ -451,6 +485,8 @@ impl World {
                     must_reject,
                     fed,
                     bogus: bogus_ids,
+                    forged_from,
+                    forge_kinds,
                 });
                 Some(idx)
             }
